@@ -41,25 +41,54 @@ def switch_of_call(ctx, body, bb):
 
 
 # ======================================================================================= S2
+def spawn_model(ctx):
+    if 'spawnmodel' not in ctx.cache:
+        from .spawnmodel import SpawnModel
+        ctx.cache['spawnmodel'] = SpawnModel(ctx)
+    return ctx.cache['spawnmodel']
+
+
+def resolve_in_scope(ctx, cb, site_body, term):
+    """express a term of a closure nested in the scope closure `cb` (a capture) in cb's own terms"""
+    from .spawnmodel import closure_term_in
+    F = ctx.facts
+    while term is not None and term[0] == 'mut':
+        term = term[1]
+    if site_body.name == cb.name:
+        return term
+    if term is None or term[0] != 'param' or not term[1].startswith('cap:'):
+        return None
+    parent = F.bodies.get(site_body.parent)
+    if parent is None:
+        return None
+    ct = closure_term_in(ctx.run(parent.name), site_body.name)
+    if ct is None:
+        return None
+    caps = site_body.d.get('captures', [])
+    for i, cn in enumerate(caps):
+        if cn.lstrip('*') == term[1][4:].lstrip('*') and i < len(ct[2]):
+            return resolve_in_scope(ctx, cb, parent, ct[2][i])
+    return None
+
+
 @rule('S2', 'JOIN-ALL: every spawned worker\'s result is pushed, joined with expect/unwrap, and consumed whole by the combiner')
 def s2(ctx):
     out = RuleOut('S2')
     F = ctx.facts
     S = ctx.slots
     I = items(ctx)
+    M = spawn_model(ctx)
     n_spawn = n_join = 0
     for entry, clo in sorted(S.scope_closures.items()):
         cb = F.bodies[clo]
         ek = strip_generics(entry)
-        bodies = [cb] + F.closures_in(cb)
+        bodies = M.entry_bodies[entry]
         joins = [(bd, bb, t) for bd in bodies for bb, t in bd.calls() if res(t) == 'std::thread::ScopedJoinHandle::join']
         r = ctx.run(clo)
-        spawns = [(bb, c) for bb, c in r.call_sites() if sg(c['callee']) == SCOPE_SPAWN]
-        n_spawn += len(spawns)
+        sites = M.sites[entry]
+        n_spawn += len(sites)
         if not joins:
-            # nothing is returned from the workers: the scope itself joins them (T2)
             out.inst('S2/%s/no-results' % ek, True, 'workers return nothing; thread::scope joins them', nontrivial=False)
-            # the entry must return the scope's result or a plain counter; nothing to lose
             continue
         # (c) every join result goes to expect/unwrap
         for (bd, bb, t) in joins:
@@ -69,9 +98,9 @@ def s2(ctx):
             key = 'S2/%s/join' % ek
             if jc is None:
                 continue
-            def raw_uses(t):
-                # occurrences of the join result that are not already wrapped in expect/unwrap
-                st = [t]
+
+            def raw_uses(tm):
+                st = [tm]
                 while st:
                     x = st.pop()
                     if x is None:
@@ -84,23 +113,28 @@ def s2(ctx):
                 return False
             users = [c for _, c in rj.call_sites() if any(raw_uses(a) for a in c['args'])]
             ok = bool(users) and all(res(c['t']) in ('std::result::Result::expect', 'std::result::Result::unwrap') and c['args'][0] == jc['res'] for c in users)
-            # the unwrapped value must also be what flows on (returned / pushed), not discarded
             out.inst(key, ok, ', '.join(res(c['t']).split('::')[-1] for c in users) or 'unused', sample={'entry': ek, 'join_consumers': [res(c['t']) for c in users]})
             if not ok:
                 out.fail(key, '%s: the result of ScopedJoinHandle::join is consumed by %s instead of expect/unwrap: a worker panic or result can be swallowed'
                          % (ek, [res(c['t']).split('::')[-1] for c in users] or 'nothing'), bd.where(t.get('line')))
-        # (a) every spawn result is pushed onto one handle vector
-        pushes = [(bb, c) for bb, c in r.call_sites() if method(c['t']) == 'push' and res(c['t']).startswith('std::vec::Vec')]
+        # (a) every spawn result is pushed onto one handle vector (of the scope closure)
         hbases = set()
-        for (bb, c) in spawns:
-            key = 'S2/%s/spawn-%s' % (ek, 'in-loop' if ctx.cfg(cb).innermost_loop(bb) is not None else 'trailing')
-            mine = [pc for _, pc in pushes if len(pc['args']) > 1 and pc['args'][1] == c['res']]
+        for site in sites:
+            rs = ctx.run(site.body.name)
+            in_loop = ctx.cfg(site.body).innermost_loop(site.bb) is not None
+            key = 'S2/%s/spawn-%s' % (ek, 'via-closure' if site.body.name != cb.name else ('in-loop' if in_loop else 'trailing'))
+            mine = [pc for _, pc in rs.call_sites() if method(pc['t']) == 'push' and res(pc['t']).startswith('std::vec::Vec') and len(pc['args']) > 1 and pc['args'][1] == site.c['res']]
             ok = len(mine) >= 1
             for pc in mine:
-                hbases.add(base_of(r, pc['args'][0]))
-            out.inst(key, ok, 'handle pushed' if ok else 'handle not pushed', sample={'entry': ek, 'spawn': t_str(c['res'])[:120], 'pushed_to': [t_str(base_of(r, pc['args'][0])) for pc in mine]})
+                tgt = resolve_in_scope(ctx, cb, site.body, base_of(rs, pc['args'][0]) if site.body.name == cb.name else pc['args'][0])
+                hb = base_of(r, tgt) if tgt is not None else None
+                if hb is None:
+                    ok = False
+                hbases.add(hb)
+            out.inst(key, ok, 'handle pushed' if ok else 'handle not pushed', sample={'entry': ek, 'spawn': t_str(site.c['res'])[:120], 'pushed_to': [t_str(x) for x in hbases]})
             if not ok:
-                out.fail(key, '%s: the handle returned by this Scope::spawn is not pushed onto the handle vector: that worker\'s result never reaches the combiner' % ek, cb.where(c['line']))
+                out.fail(key, '%s: the handle returned by this Scope::spawn is not pushed onto the handle vector of the scope: that worker\'s result never reaches the combiner' % ek, site.body.where(site.c['line']))
+        hbases.discard(None)
         if len(hbases) > 1:
             out.fail('S2/%s/handle-vectors' % ek, '%s pushes join handles onto %d different vectors' % (ek, len(hbases)), cb.where())
         H = next(iter(hbases)) if len(hbases) == 1 else None
@@ -119,8 +153,6 @@ def s2(ctx):
                 ok = not badad
                 if badad:
                     out.fail(key + '/adaptor', '%s: the join handles are consumed through `%s`, which can drop workers\' results before they are combined' % (ek, badad[0]), cb.where(c['line']))
-                # every map closure on the way must be the join+expect closure
-                # (d) operator is the entry's own reduce parameter
                 if m == 'reduce':
                     op = c['args'][1]
                     okop = op[0] == 'param' and op[1].startswith('cap:')
@@ -139,7 +171,6 @@ def s2(ctx):
                     out.fail(key + '/terminal', '%s: the join handles are consumed by `%s`; only `reduce(<entry operator>)` or a push loop is recognised' % (ek, m), cb.where(c['line']), kind='undecided')
                 out.inst(key, ok, 'chain %s over the handle vector' % names, sample={'entry': ek, 'adaptors': names, 'terminal': m})
         if not consumed:
-            # push-loop form: `for x in H { vec.push(x.join().expect()) }` and the closure returns vec
             key = 'S2/%s/consume' % ek
             loops_ok = False
             for (h, l), recs in r.recur.items():
@@ -147,7 +178,6 @@ def s2(ctx):
                     for alt in alternatives(rec):
                         if alt[0] == 'mut' and alt[2][0] == 'call' and tcallee(alt[2]).endswith('Vec::push') and len(alt[2][2]) == 2:
                             pushed = I.normalize(alt[2][2][1])
-                            # expect(join(elem<chain over H>))
                             if pushed[0] == 'call' and tcallee(pushed) in ('std::result::Result::expect', 'std::result::Result::unwrap'):
                                 j = pushed[2][0]
                                 if j[0] == 'call' and tcallee(j) == 'std::thread::ScopedJoinHandle::join' and j[2][0][0] == 'elem':
@@ -156,20 +186,18 @@ def s2(ctx):
                                         badad = [x for x in names if x not in ITER_CARD_PRESERVING]
                                         if badad:
                                             out.fail(key + '/adaptor', '%s: the join handles are iterated through `%s`, which can drop workers\' results' % (ek, badad[0]), cb.where())
-                                        # the vector that receives the values must be what the closure returns
                                         if base_of(r, ('phi', h, l)) == base_of(r, ret) and not badad:
                                             loops_ok = True
             out.inst(key, loops_ok, 'push loop over the handle vector', sample={'entry': ek, 'form': 'for h in handles { out.push(h.join().expect(..)) }'})
             if not loops_ok:
                 out.fail(key, '%s: cannot establish that every joined worker result reaches the returned vector (no reduce over the handle vector and no complete push loop found)' % ek, cb.where())
-        # the entry returns what the scope closure returns
         er = ctx.run(entry)
         sc = [c for _, c in er.call_sites() if res(c['t']) == 'std::thread::scope']
         ok = bool(sc) and any(x == sc[0]['res'] for x in subterms(er.ret))
         out.inst('S2/%s/entry-ret' % ek, ok, 'entry returns the scope result')
         if not ok:
             out.fail('S2/%s/entry-ret' % ek, '%s does not return the value computed inside thread::scope' % ek, F.bodies[entry].where())
-    out.floor('spawn_sites', n_spawn, 6 if not ctx.fixture else 0)
+    out.floor('spawn_sites', n_spawn, 3 if not ctx.fixture else 0)
     out.floor('join_sites', n_join, 2 if not ctx.fixture else 0)
     return out
 
@@ -180,86 +208,104 @@ def c08_spawn(ctx):
     out = RuleOut('C08-SPAWN')
     F = ctx.facts
     S = ctx.slots
+    M = spawn_model(ctx)
     n = 0
-    for entry, clo in sorted(S.scope_closures.items()):
-        cb = F.bodies[clo]
-        ek = strip_generics(entry)
-        cfg = ctx.cfg(cb)
-        r = ctx.run(clo)
-        spawns = [(bb, c) for bb, c in r.call_sites() if sg(c['callee']) == SCOPE_SPAWN]
-        guards = []
-        for bb, c in r.call_sites():
-            if sg(c['callee']).endswith('Runner::do_spawn'):
-                sw = switch_of_call(ctx, cb, bb)
-                if sw:
-                    guards.append((bb, c, sw))
+    covered = set()
+    for hn, h in sorted(M.hosts.items()):
+        hb = h['body']
+        hk = key_of(hb)
+        cfg = ctx.cfg(hb)
+        r = ctx.run(hn)
+        guards = [(gbb, gc, sw) for (gbb, gc, sw) in h['guards'] if sw]
         trailing = []
-        for (bb, c) in spawns:
-            n += 1
-            if cfg.innermost_loop(bb) is None:
-                trailing.append((bb, c))
+        seen_ev = set()
+        for ev in h['events']:
+            covered.add((ev.site.body.name, ev.site.bb))
+            if ev.bb in seen_ev:
                 continue
-            key = 'C08-SPAWN/%s/in-loop' % ek
+            seen_ev.add(ev.bb)
+            n += 1
+            bb = ev.bb
+            if cfg.innermost_loop(bb) is None:
+                trailing.append(ev)
+                continue
+            key = 'C08-SPAWN/%s/in-loop' % hk
             g = [(gbb, gc, sw) for (gbb, gc, sw) in guards if sw[1] != sw[2] and cfg.edge_dominates(sw[0], sw[1], bb)]
             if not g:
                 out.inst(key, False, 'no dominating do_spawn true edge')
-                out.fail(key, '%s: a Scope::spawn inside the spawn loop is not dominated by the true edge of do_spawn(): the thread bound is not enforced for it' % ek, cb.where(c['line']))
+                out.fail(key, '%s: a spawn inside the spawn loop is not dominated by the true edge of do_spawn(): the thread bound is not enforced for it' % hk, hb.where(ev.c['line']))
                 continue
             gbb, gc, sw = g[0]
             N = gc['args'][1]
-            # the counter handed to do_spawn and its increment between this spawn and the next do_spawn
             inc_blocks = []
             why = ''
+            init_ok = None
             if N[0] == 'call' and tcallee(N).endswith('Vec::len'):
-                hb = base_of(r, N[2][0])
+                hbase = base_of(r, N[2][0])
                 for pbb, pc in r.call_sites():
-                    if method(pc['t']) == 'push' and base_of(r, pc['args'][0]) == hb and len(pc['args']) > 1 and pc['args'][1] == c['res']:
+                    if method(pc['t']) == 'push' and base_of(r, pc['args'][0]) == hbase and len(pc['args']) > 1 and pc['args'][1] == ev.c['res']:
                         inc_blocks.append(pbb)
-                # a push of the handle necessarily follows the spawn that produced it: the cycle check starts at the spawn
                 if inc_blocks and gbb in cfg.reach_strict(bb, avoid=set(inc_blocks)):
                     inc_blocks = []
                 why = 'counter = len(handles); increment = handles.push(spawned)'
+                init_ok = hbase is not None and hbase[0] == 'call' and tcallee(hbase).split('::')[-1] in ('new', 'with_capacity')
+                init_why = 'handle vector starts as %s' % t_str(hbase)
+            elif N[0] == 'phi':
+                L = N[2]
+                for x in cfg.loops().get(cfg.innermost_loop(bb), ()):
+                    a, z = r.state.get(x, {}).get(L), r.exit_env.get(x, {}).get(L)
+                    if a is not None and z == ('bin', 'Add', a, ('const', 1)):
+                        inc_blocks.append(x)
+                why = 'counter = local `%s`; increment = += 1' % (hb.local_name(L) or '_%d' % L)
+                iv = N
+                guard_n = 0
+                while iv is not None and iv[0] == 'phi' and guard_n < 6:
+                    iv = r.init.get((iv[1], iv[2]))
+                    guard_n += 1
+                init_ok = iv == ('const', 0)
+                init_why = 'counter initial value %s' % t_str(iv)
             else:
                 for (sbb, si), st in r.stores.items():
                     if st['ptr'] == N and st['value'] == ('bin', 'Add', N, ('const', 1)):
                         inc_blocks.append(sbb)
                 why = 'counter = %s; increment = += 1' % t_str(N)
-            # every path from the spawn back to the guard passes an increment
-            ok = bool(inc_blocks) and gbb not in (cfg.reach(sw[1], avoid=set(inc_blocks)) if sw[1] not in inc_blocks else set())
-            # and the increment happens once: no two increments on one path between spawn and guard
-            out.inst(key, ok, why, sample={'entry': ek, 'guard': 'do_spawn(%s)' % t_str(N)[:60], 'increment_blocks': len(inc_blocks)})
+                if N[0] == 'param' and N[1].startswith('cap:') and hb.is_closure():
+                    from .spawnmodel import closure_term_in
+                    parent = F.bodies.get(hb.parent)
+                    ct = closure_term_in(ctx.run(parent.name), hb.name) if parent else None
+                    init = None
+                    if ct is not None:
+                        for i, cn in enumerate(hb.d.get('captures', [])):
+                            if cn.lstrip('*') == N[1][4:].lstrip('*') and i < len(ct[2]):
+                                init = ct[2][i]
+                    init_ok = init == ('const', 0)
+                    init_why = 'counter initial value %s' % t_str(init)
+            # on every cycle through the guard's true edge the counter is incremented
+            ok = bool(inc_blocks) and (sw[1] in inc_blocks or gbb not in cfg.reach(sw[1], avoid=set(inc_blocks)))
+            out.inst(key, ok, why, sample={'host': hk, 'guard': 'do_spawn(%s)' % t_str(N)[:60], 'increment_blocks': len(inc_blocks), 'event': ev.kind})
             if not ok:
-                out.fail(key + '/counter', '%s: between this spawn and the next do_spawn() the spawn counter %s is not incremented on every path: more workers than max_num_threads can be spawned'
-                         % (ek, t_str(N)[:80]), cb.where(c['line']))
-            # the counter starts at zero / the handle vector starts empty
-            if N[0] == 'param' and N[1].startswith('cap:'):
-                eb = F.bodies[entry]
-                er = ctx.run(entry)
-                sc = [cc for _, cc in er.call_sites() if res(cc['t']) == 'std::thread::scope']
-                init = None
-                if sc and sc[0]['args'] and sc[0]['args'][0][0] == 'closure':
-                    caps = cb.d.get('captures', [])
-                    for i, cn in enumerate(caps):
-                        if cn.lstrip('*') == N[1][4:].lstrip('*') and i < len(sc[0]['args'][0][2]):
-                            init = sc[0]['args'][0][2][i]
-                ok0 = init == ('const', 0)
-                out.inst(key + '/init', ok0, 'counter initial value %s' % t_str(init))
-                if not ok0:
-                    out.fail(key + '/init', '%s: the spawn counter does not start at 0 (it is %s when the scope starts)' % (ek, t_str(init)), eb.where())
-            elif N[0] == 'call':
-                hb = base_of(r, N[2][0])
-                ok0 = hb is not None and hb[0] == 'call' and tcallee(hb).split('::')[-1] in ('new', 'with_capacity')
-                out.inst(key + '/init', ok0, 'handle vector starts as %s' % t_str(hb))
-                if not ok0:
-                    out.fail(key + '/init', '%s: the handle vector whose length counts the workers does not start empty (%s)' % (ek, t_str(hb)), cb.where())
-        key = 'C08-SPAWN/%s/trailing' % ek
-        ok = len(trailing) <= 1 or not any(b2 in cfg.reach_strict(b1) for (b1, _) in trailing for (b2, _) in trailing if b1 != b2)
-        out.inst(key, ok, '%d spawn(s) outside loops' % len(trailing), sample={'entry': ek, 'trailing_spawns': len(trailing)})
+                out.fail(key + '/counter', '%s: on a cycle through the true edge of do_spawn() the spawn counter %s is not incremented: more workers than max_num_threads can be spawned'
+                         % (hk, t_str(N)[:80]), hb.where(ev.c['line']))
+            if init_ok is not None:
+                out.inst(key + '/init', init_ok, init_why)
+                if not init_ok:
+                    out.fail(key + '/init', '%s: the spawn counter does not start at zero (%s)' % (hk, init_why), hb.where())
+        key = 'C08-SPAWN/%s/trailing' % hk
+        tb = sorted({e.bb for e in trailing})
+        ok = not any(b2 in cfg.reach_strict(b1) for b1 in tb for b2 in tb if b1 != b2)
+        out.inst(key, ok and len(tb) <= 1, '%d spawn(s) outside loops' % len(tb), sample={'host': hk, 'trailing_spawns': len(tb)})
         if not ok:
-            out.fail(key, '%s: more than one unguarded (outside-loop) spawn lies on a path: the bound max_num_threads is exceeded' % ek, cb.where())
-        if len(trailing) > 1 and ok:
-            out.fail(key, '%s: %d unguarded spawns exist outside the loop (on different paths); only one trailing spawn is accounted for in the bound' % (ek, len(trailing)), cb.where(), kind='undecided')
-    out.floor('spawn_sites', n, 6 if not ctx.fixture else 0)
+            out.fail(key, '%s: more than one unguarded (outside-loop) spawn lies on a path: the bound max_num_threads is exceeded' % hk, hb.where())
+        elif len(tb) > 1:
+            out.fail(key, '%s: %d unguarded spawns exist outside the loop (on different paths); only one trailing spawn is accounted for in the bound' % (hk, len(tb)), hb.where(), kind='undecided')
+    # every spawn site is driven by a guarded event of some host
+    for entry, sites in sorted(M.sites.items()):
+        for site in sites:
+            if (site.body.name, site.bb) not in covered:
+                out.fail('C08-SPAWN/%s/unmodelled' % strip_generics(entry), '%s: this Scope::spawn is not driven by the do_spawn-guarded loop (nor its single trailing spawn): the thread bound does not cover it'
+                         % strip_generics(entry), site.body.where(site.c['line']))
+    out.floor('spawn_events', n, 2 if not ctx.fixture else 0)
+    out.floor('hosts', len(M.hosts), 1 if not ctx.fixture else 0)
     return out
 
 
@@ -450,8 +496,8 @@ def c01_key(ctx):
             out.inst(key, not probs, how, sample={'task': key_of(b), 'emission': how, 'key': t_str(K)[:300], 'value': t_str(V)[:200]})
             for p in probs:
                 out.fail(key, '%s (%s): %s' % (key_of(b), how, p), b.where(line), {'key': t_str(K)[:400], 'value': t_str(V)[:400]})
-    out.floor('ordered_tasks', len(tasks), 4 if not ctx.fixture else 0)
-    out.floor('emission_points', n, 8 if not ctx.fixture else 0)
+    out.floor('ordered_tasks', len(tasks), 3 if not ctx.fixture else 0)
+    out.floor('emission_points', n, 4 if not ctx.fixture else 0)
     return out
 
 
@@ -482,7 +528,7 @@ def c01_append(ctx):
                 out.inst(key, ok, m, sample={'task': key_of(b), 'buffer_call': m})
                 if not ok:
                     out.fail(key, '%s calls `%s` on the buffer it returns: thread-local order (pull order x in-chunk order) is no longer guaranteed' % (key_of(b), m), b.where(c['line']))
-    out.floor('buffer_calls', n, 9 if not ctx.fixture else 0)
+    out.floor('buffer_calls', n, 4 if not ctx.fixture else 0)
     return out
 
 
@@ -549,7 +595,7 @@ def c07_task(ctx):
                     out.fail(key0 + '/extend', '%s extends its buffer through `%s`: elements can be lost or reordered' % (key_of(b), bad[0]), b.where(c['line']))
                 elif not rooted:
                     out.fail(key0 + '/extend-root', '%s extends its buffer with a chain that is not rooted at the pulled chunk: %s' % (key_of(b), t_str(root)[:100]), b.where(c['line']))
-    out.floor('fill_points', n, 6 if not ctx.fixture else 0)
+    out.floor('fill_points', n, 3 if not ctx.fixture else 0)
     return out
 
 
@@ -911,8 +957,8 @@ def c01_merge(ctx):
                     out.fail('C01-MERGE/use/%s' % key_of(b), '%s does not hand the runner\'s per-thread vectors, as returned, to the merge: %s' % (key_of(b), t_str(c['args'][0])[:160]), b.where(c['line']))
                 elif not ok2:
                     out.fail('C01-MERGE/use/%s/target' % key_of(b), '%s merges into %s, not into its output parameter' % (key_of(b), t_str(c['args'][1])[:100]), b.where(c['line']))
-    out.floor('merge_functions', len(ms), 2 if not ctx.fixture else 0)
-    out.floor('merge_uses', n_use, 6 if not ctx.fixture else 0)
+    out.floor('merge_functions', len(ms), 1 if not ctx.fixture else 0)
+    out.floor('merge_uses', n_use, 2 if not ctx.fixture else 0)
     return out
 
 
@@ -937,7 +983,7 @@ def c13_pair(ctx):
         out.inst(k + '/freed', bool(drops), 'vectors dropped on the normal path (buffers freed)')
         if not drops:
             out.fail(k + '/freed', '%s: `vectors` is never dropped on the normal path: its buffers leak' % key_of(b), b.where())
-    out.floor('merge_functions', len(ms), 2 if not ctx.fixture else 0)
+    out.floor('merge_functions', len(ms), 1 if not ctx.fixture else 0)
     return out
 
 
@@ -1068,7 +1114,7 @@ def c14_window(ctx):
         out.inst(k + '/key-types', okk, str(sorted(keyt)))
         if not okk:
             out.fail(k + '/key-types', '%s: the key type %s may run user comparison code inside the window' % (key_of(b), sorted(keyt)), b.where(), kind='undecided')
-    out.floor('window_calls', n, 20 if not ctx.fixture else 0)
+    out.floor('window_calls', n, 8 if not ctx.fixture else 0)
     return out
 
 
@@ -1255,7 +1301,7 @@ def c01_compose(ctx):
         out.inst(key, not probs, 'upstream %s, new %s' % (ups, news), sample={'closure': key_of(cb), 'upstream': ups, 'new': news, 'events': [(e['kind'], e['name']) for e in ev]})
         for (tag, msg, line) in probs:
             out.fail(key + '/' + tag, '%s: %s' % (key_of(cb), msg), cb.where(line))
-    out.floor('composed_closures', n, 19 if not ctx.fixture else 0)
+    out.floor('composed_closures', n, 8 if not ctx.fixture else 0)
     return out
 
 
@@ -1320,7 +1366,7 @@ def c05_once(ctx):
             out.inst(key, bad is None, '%d call site(s)' % len(bbs), sample={'body': key_of(b), 'closure': u, 'call_sites': len(bbs)})
             if bad:
                 out.fail(key, '%s: the by-reference closure `%s` can be evaluated twice on the same element (a second call is reachable without an intervening pull)' % (key_of(b), u), b.where(b.blocks[bad[1]]['term'].get('line')))
-    out.floor('by_ref_closure_uses', n, 40 if not ctx.fixture else 0)
+    out.floor('by_ref_closure_uses', n, 15 if not ctx.fixture else 0)
     return out
 
 
@@ -1417,7 +1463,7 @@ def c05_visit(ctx):
                 out.inst(key + '/survivor', not bad, 'survivor edge of `%s`' % u, sample={'task': key_of(b), 'filter': u, 'blocks_after_survivor_edge': len(r2.visited)})
                 for tx in bad:
                     out.fail(key + '/survivor', '%s: on the path where `%s` accepted the element, the stage result (%s) can be dropped instead of being emitted' % (key_of(b), u, tx['ty']), b.where(tx.get('line')))
-    out.floor('must_visit_tasks', len(tasks), 13 if not ctx.fixture else 0)
+    out.floor('must_visit_tasks', len(tasks), 6 if not ctx.fixture else 0)
     return out
 
 
@@ -1443,7 +1489,7 @@ def c05_source(ctx):
                 out.inst(key, ok, t_str(a)[:100], sample={'source': key_of(b), 'iterator': t_str(a)[:120]})
                 if not ok:
                     out.fail(key, '%s builds the pipeline from %s, not from a concurrent-iterator constructor of the dependency: a by-value iterator could be advanced by several threads' % (key_of(b), t_str(a)[:120]), b.where(c['line']))
-    out.floor('source_constructions', n, 27 if not ctx.fixture else 0)
+    out.floor('source_constructions', n, 20 if not ctx.fixture else 0)
     return out
 
 
@@ -1469,7 +1515,7 @@ def c09_empty(ctx):
         why = t_str(r.ret)[:160]
         for alt in alternatives(r.ret):
             x = alt
-            if x[0] == 'call' and is_iter_method(x, ('collect',)):
+            if x[0] == 'call' and (is_iter_method(x, ('collect',)) or tcallee(x) == 'std::iter::FromIterator::from_iter'):
                 names, root = I.spine(x[2][0])
                 ok = not [y for y in names if y not in ITER_CARD_PRESERVING] and coniter_term_is(root, {'into_seq_iter'})
             elif x[0] == 'call' and method_of_term(x) == 'seq_extend':
@@ -1546,7 +1592,7 @@ def c02_idx(ctx):
                 out.inst(key, ok, why, sample={'kernel': key_of(b), 'index': why, 'value': t_str(val)[:120]})
                 if not ok:
                     out.fail(key, '%s reports index %s with a match: not the element\'s position in the source' % (key_of(b), why), b.where(), {'payload': t_str(p)[:300]})
-    out.floor('match_payloads', n, 8 if not ctx.fixture else 0)
+    out.floor('match_payloads', n, 4 if not ctx.fixture else 0)
     return out
 
 
@@ -1587,7 +1633,7 @@ def c02_first(ctx):
             out.inst(key, not probs, t_str(x)[:100], sample={'task': key_of(b), 'search': t_str(x)[:160]})
             for p in probs:
                 out.fail(key, '%s: %s' % (key_of(b), p), b.where())
-    out.floor('match_tests', n, 6 if not ctx.fixture else 0)
+    out.floor('match_tests', n, 3 if not ctx.fixture else 0)
     return out
 
 
@@ -1710,7 +1756,7 @@ def c03_thread(ctx):
 
         total += check_accumulators(ctx, out, 'C03-THREAD', tb, combine_ok, chain_reduce_ok, init_ok)
     out.floor('reduce_tasks', len(tasks), 3 if not ctx.fixture else 0)
-    out.floor('updates', total, 7 if not ctx.fixture else 0)
+    out.floor('updates', total, 3 if not ctx.fixture else 0)
     return out
 
 
@@ -1771,7 +1817,7 @@ def c04_thread(ctx):
                     if not ok:
                         out.fail('C04-THREAD/%s/survivor' % key_of(tb), '%s counts 1 on a path that is not guarded by the user filter accepting the element' % key_of(tb), tb.where(st.get('line')))
     out.floor('count_tasks', len(tasks), 3 if not ctx.fixture else 0)
-    out.floor('updates', total, 7 if not ctx.fixture else 0)
+    out.floor('updates', total, 3 if not ctx.fixture else 0)
     return out
 
 
@@ -1812,5 +1858,5 @@ def c04_chain(ctx):
                 out.inst(key, okf, 'count over %s' % names, sample={'kernel': key_of(b), 'chain': names})
                 if not okf:
                     out.fail(key, '%s counts a chain whose last adaptor is not `filter(<user filter>)`: %s' % (key_of(b), names[:3]), b.where(c['line']))
-    out.floor('count_chains', n, 8 if not ctx.fixture else 0)
+    out.floor('count_chains', n, 3 if not ctx.fixture else 0)
     return out
